@@ -7,6 +7,9 @@ package main
 // Storage.StoreEngine.storage_engine compares the back ends with each other and with the model.
 
 import (
+	"errors"
+	"fmt"
+	"io"
 	"math/rand"
 	"strings"
 
@@ -296,6 +299,62 @@ func storageAlphabet() []stEvent {
 	}
 }
 
+// storageDirected: hook-level histories every back end has to treat alike and as the model says.
+func storageDirected() [][]stEvent {
+	var hs [][]stEvent
+	mk := func(sei uint32, will bool, cause error) *mqtt.Client {
+		cl := &mqtt.Client{ID: "x:1"}
+		cl.Net.Listener = "t"
+		cl.Properties.ProtocolVersion = 5
+		cl.Properties.Props.SessionExpiryInterval, cl.Properties.Props.SessionExpiryIntervalFlag = sei, true
+		if will {
+			cl.Properties.Will = mqtt.Will{TopicName: "w", Payload: []byte("gone"), Flag: 1}
+		}
+		if cause != nil {
+			cl.Stop(cause)
+		}
+		return cl
+	}
+	// the old connection (session expiry 0, a will) is superseded by a new one (session expiry 3600);
+	// its OnWillSent / OnDisconnect reach the hooks before or after the new OnSessionEstablished
+	causes := []error{packets.ErrSessionTakenOver, fmt.Errorf("stopped: %w", packets.ErrSessionTakenOver),
+		packets.ErrServerShuttingDown, io.EOF, nil}
+	for _, cause := range causes {
+		to := errors.Is(cause, packets.ErrSessionTakenOver)
+		for _, expire := range []bool{true, false} {
+			for order := 0; order < 3; order++ {
+				first := evSessionEstablished(mk(0, true, nil), false)
+				nw := evSessionEstablished(mk(3600, false, nil), false)
+				oldWill := evWillSent(mk(0, false, cause), to)
+				oldDisc := evDisconnect(mk(0, false, cause), to, expire)
+				switch order {
+				case 0:
+					hs = append(hs, []stEvent{first, nw, oldWill, oldDisc})
+				case 1:
+					hs = append(hs, []stEvent{first, oldWill, oldDisc, nw})
+				default:
+					hs = append(hs, []stEvent{first, oldWill, nw, oldDisc})
+				}
+			}
+		}
+	}
+	// OnSubscribed with reason codes around 0x80: granted QoS 0..2 is stored, everything from 0x80 on is not;
+	// alone, mixed with granted filters, and over an existing stored subscription of the same filter
+	g := &stGen{rng: rand.New(rand.NewSource(11))}
+	for _, rc := range []byte{0x00, 0x01, 0x02, 0x7f, 0x80, 0x81, 0x83, 0x87, 0x8f, 0x91, 0x97, 0x9e, 0xa1, 0xa2, 0xff} {
+		for _, id := range []string{"v3", "v:5"} {
+			one := packets.Subscriptions{g.subscription("a/#/b")}
+			mixed := packets.Subscriptions{g.subscription("ok/1"), g.subscription("$share/+/a"), g.subscription("ok:2")}
+			hs = append(hs,
+				[]stEvent{evSubscribed(id, one, []byte{rc})},
+				[]stEvent{evSubscribed(id, mixed, []byte{1, rc, 2})},
+				[]stEvent{evSubscribed(id, packets.Subscriptions{g.subscription("a/b")}, []byte{2}),
+					evSubscribed(id, packets.Subscriptions{g.subscription("a/b")}, []byte{rc})})
+		}
+	}
+	return hs
+}
+
 func engStorage(seed int64, tier string, _ []string, out *sx.Out) {
 	env := newStoreEnv()
 	defer env.close()
@@ -347,6 +406,12 @@ func engStorage(seed int64, tier string, _ []string, out *sx.Out) {
 			evs = append(evs, g.event())
 		}
 		runStorageCase(env, evs, sel(i), out)
+	}
+
+	// (iv) directed, on all four back ends: a take-over seen by the hooks in both orders, and refused
+	// filters at the boundary reason codes
+	for _, evs := range storageDirected() {
+		runStorageCase(env, evs, all, out)
 	}
 
 	// (iii) extreme operands: keys around the engines' key-size limits (bbolt 32768, badger 65000),
